@@ -373,7 +373,11 @@ def _json_style(rng, md, style):
         return json.dumps(md, indent=1, ensure_ascii=False, sort_keys=True)
 
 
+UNKNOWN_LABEL = object()
+
+
 def gen_foreign(rng, pool=None, shuffle=True, blanks=True, crlf=None,
+                unknown_labels=False,
                 drop_optional=True, json_styles=True, p_main_none=0.12,
                 max_changes=3, max_files=3, big=False, meta_le=True,
                 long_opts=False):
@@ -431,6 +435,9 @@ def gen_foreign(rng, pool=None, shuffle=True, blanks=True, crlf=None,
     def content(sid):
         name = sid.lstrip('.')
         own = rng.choice(pool) if rng.chance(0.3) else None
+
+        if name != 'diff' and scope[-1] is UNKNOWN_LABEL and own is None:
+            own = rng.choice(pool)
         eff = own if name == 'diff' else (own or scope[-1])
         kind = rng.choice(['unix', 'dos'])
         nl = R.NL(kind, eff)
@@ -584,7 +591,17 @@ def gen_foreign(rng, pool=None, shuffle=True, blanks=True, crlf=None,
             fe = rng.choice(pool) if rng.chance(0.3) else None
             del scope[2:]
             scope.append(fe or scope[-1])
-            hdr('..file', [('encoding', fe)])
+
+            if unknown_labels and fe is None and rng.chance(0.04):
+                # a label this platform has no codec for, on a container
+                # whose content sections all say what they are written in:
+                # never needed, so never a reason to refuse the file
+                hdr('..file', [('encoding', rng.choice(
+                    ['x-user-defined', 'x-mac-cyrillic', 'utf-99']))])
+                scope[-1] = UNKNOWN_LABEL
+            else:
+                hdr('..file', [('encoding', fe)])
+
             content('...meta')
 
             if rng.chance(0.6):
